@@ -16,6 +16,7 @@ import (
 	"strconv"
 	"strings"
 	"sync"
+	"sync/atomic"
 	"time"
 
 	"github.com/bool64/cache"
@@ -254,6 +255,7 @@ func c16NewEnv(kind string, strat int, failover string, rng *rand.Rand) *c16Env 
 	e.inv = &cache.Invalidator{SkipInterval: time.Microsecond}
 	e.inv.Callbacks = append(e.inv.Callbacks, e.be.ExpireAll, e.be.DeleteAll)
 	errFail := errors.New("build failed")
+	faulty := rng.Intn(2) == 0 // user-supplied backend that fails now and then with an unexpected error
 	switch failover {
 	case "Failover":
 		var rw cache.ReadWriter
@@ -262,6 +264,9 @@ func c16NewEnv(kind string, strat int, failover string, rng *rand.Rand) *c16Env 
 			rw = a.m
 		case syAdapter:
 			rw = a.m
+		}
+		if faulty {
+			rw = &c16FaultyRW{rw: rw}
 		}
 		f := cache.NewFailover(cache.FailoverConfig{Backend: rw, MaxStaleness: time.Hour, FailedUpdateTTL: time.Millisecond, UpdateTTL: time.Millisecond, Stats: nopStats{}, ObserveMutability: true, SyncRead: rng.Intn(2) == 0}.Use)
 		e.fo = func(ctx context.Context, key []byte, ok bool) {
@@ -273,7 +278,11 @@ func c16NewEnv(kind string, strat int, failover string, rng *rand.Rand) *c16Env 
 			})
 		}
 	case "FailoverOf":
-		f := cache.NewFailoverOf[string](cache.FailoverConfigOf[string]{Backend: e.be.(ofAdapter).m, MaxStaleness: time.Hour, FailedUpdateTTL: time.Millisecond, UpdateTTL: time.Millisecond, Stats: nopStats{}, ObserveMutability: true, SyncRead: rng.Intn(2) == 0}.Use)
+		var rwo cache.ReadWriterOf[string] = e.be.(ofAdapter).m
+		if faulty {
+			rwo = &c16FaultyRWOf{rw: rwo}
+		}
+		f := cache.NewFailoverOf[string](cache.FailoverConfigOf[string]{Backend: rwo, MaxStaleness: time.Hour, FailedUpdateTTL: time.Millisecond, UpdateTTL: time.Millisecond, Stats: nopStats{}, ObserveMutability: true, SyncRead: rng.Intn(2) == 0}.Use)
 		e.fo = func(ctx context.Context, key []byte, ok bool) {
 			_, _ = f.Get(ctx, key, func(ctx context.Context) (string, error) {
 				if !ok {
@@ -495,4 +504,45 @@ func scanRaceLogs(id, scratch string, bi int, agg *Result) {
 			}
 		}
 	}
+}
+
+var errC16Backend = errors.New("injected backend failure")
+
+// c16FaultyRW fails roughly every 7th read and every 11th write with an error that is neither ErrNotFound nor ErrExpired.
+type c16FaultyRW struct {
+	rw cache.ReadWriter
+	n  int64
+}
+
+func (f *c16FaultyRW) Read(ctx context.Context, k []byte) (interface{}, error) {
+	if atomic.AddInt64(&f.n, 1)%7 == 0 {
+		return nil, errC16Backend
+	}
+	return f.rw.Read(ctx, k)
+}
+
+func (f *c16FaultyRW) Write(ctx context.Context, k []byte, v interface{}) error {
+	if atomic.AddInt64(&f.n, 1)%11 == 0 {
+		return errC16Backend
+	}
+	return f.rw.Write(ctx, k, v)
+}
+
+type c16FaultyRWOf struct {
+	rw cache.ReadWriterOf[string]
+	n  int64
+}
+
+func (f *c16FaultyRWOf) Read(ctx context.Context, k []byte) (string, error) {
+	if atomic.AddInt64(&f.n, 1)%7 == 0 {
+		return "", errC16Backend
+	}
+	return f.rw.Read(ctx, k)
+}
+
+func (f *c16FaultyRWOf) Write(ctx context.Context, k []byte, v string) error {
+	if atomic.AddInt64(&f.n, 1)%11 == 0 {
+		return errC16Backend
+	}
+	return f.rw.Write(ctx, k, v)
 }
